@@ -14,7 +14,10 @@ EXPLANATION = (
     "path, at the slot its target denotes, and nothing else changes the shape of the executed list; (BUILD) build moves the "
     "stage list and the thread-local list unchanged into the dispatcher; (FANOUT) every run-family entry point (execute, "
     "dispatch*, run_now, batch run, MultiDispatcher::run, Par/Seq run) reaches every element of every carrier field exactly "
-    "once on every normal path through full-forward traversals. Decides the shape, not run-time counts; user controllers are out of scope.")
+    "once on every normal path through full-forward traversals; (UNLISTED) any other method of a carrier - or of a type found to keep systems: it implements System / RunNow / RunWithPool / "
+    "BatchController and holds a carrier, a RunNow object or a bounded type parameter, also inside a container - that hands systems to the run family covers each carrier field path "
+    "completely or not at all on every way through (a library adaptor not known to visit every element once fails closed); (BUILD) the chaining twins with / with_batch / with_thread_local "
+    "do exactly what add / add_batch / add_thread_local do. Decides the shape, not run-time counts; user controllers are out of scope.")
 ASSUMPTIONS = ["rayon's for_each/install/join run each closure/item exactly once", "user-written BatchController::run dispatches as often as it intends"]
 TRUSTED = ["rustc nightly MIR construction (mir-opt-level=0)", "shred-facts driver", "shredlint analyses"]
 TECHNIQUE = 'static: FANOUT coverage over the structured evaluation (exactly one call per carrier field on every path; helpers, closures handed to rayon install/join/spawn and std combinators evaluated in place; loops of any spelling must be full traversals), path tabulation of insert, lock-step mutation inventory, build wiring terms, capacity constants'
